@@ -79,6 +79,8 @@ Fixpoint popcount_pos (p : positive) : N :=
   end.
 Definition popcount (x : N) : N :=
   match x with N0 => 0 | Npos p => popcount_pos p end.
+(* usize::is_power_of_two *)
+Definition is_pow2 (n : N) : bool := popcount n =? 1.
 
 (* ---- little-endian byte encodings ---- *)
 Fixpoint le_encode (k : nat) (v : N) : list N :=
